@@ -16,11 +16,14 @@ import (
 	"verif/c09"
 	"verif/c10"
 	"verif/c11"
+	"verif/c12"
 	"verif/c13"
 	"verif/c14"
 	"verif/c15"
+	"verif/c16"
 	"verif/c17"
 	"verif/c18"
+	"verif/c19"
 	"verif/c20"
 	"verif/vf"
 )
@@ -41,11 +44,14 @@ var checks = map[string]struct {
 	"C09": {"exploration", "", c09.Run},
 	"C10": {"exploration", "", c10.Run},
 	"C11": {"exploration", "", c11.Run},
+	"C12": {"exploration", "", c12.Run},
 	"C13": {"exploration", "", c13.Run},
 	"C14": {"exploration", "", c14.Run},
 	"C15": {"exploration", "", c15.Run},
+	"C16": {"exploration", "", c16.Run},
 	"C17": {"exploration", "", c17.Run},
 	"C18": {"exploration", "", c18.Run},
+	"C19": {"exploration", "", c19.Run},
 	"C20": {"exploration", "", c20.Run},
 }
 
